@@ -1186,6 +1186,17 @@ class CastleWall(Base):
                         inside = [[None] * w for _ in range(h)]
                         arrow[y][x] = dch + str(n)
                         out.append({"tag": "%dx%d/edge%d,%d%s%d" % (h, w, y, x, dch, n), "h": h, "w": w, "arrow": arrow, "inside": inside})
+        # a wall in the interior of the board (a loop can go round it), of every colour: grey (None), white (inside), black (outside)
+        for (h, w) in [(3, 3), (3, 4), (4, 3)]:
+            for (y, x) in [(1, 1)] + ([(1, 2)] if w == 4 else []) + ([(2, 1)] if h == 4 else []):
+                for a in ("??", "^0", ">1"):
+                    for ins in (None, True, False):
+                        arrow = [[".."] * w for _ in range(h)]
+                        inside = [[None] * w for _ in range(h)]
+                        arrow[y][x] = a
+                        inside[y][x] = ins
+                        out.append({"tag": "%dx%d/inner%d,%d%s%s" % (h, w, y, x, a, {None: "g", True: "i", False: "o"}[ins]), "h": h, "w": w,
+                                    "arrow": arrow, "inside": inside})
         for (h, w) in shapes(6 if tier == "quick" else 9, min_side=2):
             for k in range(10 if tier == "quick" else 40):
                 arrow = [[".."] * w for _ in range(h)]
